@@ -286,6 +286,18 @@ func (vc *VC) callUnknown(key string, callee *ssa.Function, c *ssa.CallCommon, a
 		na := vc.fresh("alloc", "Int")
 		vc.assume("true", app("<=", a, na))
 		vc.set(st, "alloc", "Int", na)
+	} else if callee != nil && writesNothing(callee) && vc.inlineLeaf(callee, args, st, reach, &res) {
+		// tolerant.go: a write-free single-block helper without contract is executed in place
+	} else if callee != nil && writesNothing(callee) {
+		// tolerant.go: a repo function without contract whose body provably writes no memory (no store, map update, send,
+		// go/defer, and only calls of read-only dependency functions) is treated as `assigns fresh-only` with an
+		// unconstrained result instead of havocking all state. (A helper extracted from a function under contract — e.g.
+		// a local closure building an error value — must not make the caller's proof collapse.)
+		vc.eng.note("repo function " + key + " called from " + vc.key + " has no contract: body writes no memory (syntactic check), result unconstrained")
+		a := vc.allocTerm(st)
+		na := vc.fresh("alloc", "Int")
+		vc.assume("true", app("<=", a, na))
+		vc.set(st, "alloc", "Int", na)
 	} else {
 		vc.havocAll(st)
 		vc.eng.note("repo function " + key + " called from " + vc.key + " has no contract: result unconstrained, all state havocked")
